@@ -414,6 +414,23 @@ class Env:
             if src.get("placeholder"):
                 raise Unspecified("a remote file injecting its own text")
             value, runit, rtype = src["text"], None, "str"
+            want = st.get("type")
+            if want is None:
+                host = self.nodes.get(".".join([n for _, n in self.parents
+                                                 if _ < st["indent"]] + [st["name"]]))
+                want = host["type"] if host else None
+            if want in ("int", "float"):
+                # numbers and arrays kept in a text file (JSON notation)
+                try:
+                    parsed = json.loads(src["text"])
+                except ValueError:
+                    raise Unspecified("text source that is not a number or an array")
+                value = cast(want, parsed) if want == "float" else parsed
+                if want == "int" and not all_leaves_int(parsed):
+                    raise Unspecified("non-integer text for an int host")
+                rtype = want
+                if st.get("slice") and len(st["slice"]) > 1:
+                    raise Unspecified("multi-dimensional slice of a text source")
         else:
             sel = self.resolve(ref)
             if len(sel) != 1:
@@ -799,6 +816,12 @@ def render(st):
     if k == "raw":
         return st["text"]
     raise ValueError(k)
+
+
+def all_leaves_int(v):
+    if isinstance(v, list):
+        return all(all_leaves_int(x) for x in v)
+    return isinstance(v, int) and not isinstance(v, bool)
 
 
 def all_integral(v):
